@@ -75,6 +75,18 @@ fn programs(ctx: &WorkerCtx, p: &Plan, a_len: usize, also_next_shard: bool) -> V
             work.push((b3 + i, c.to_vec()));
         }
     });
+    let b4 = base;
+    base += spaces::space_p(p.w_full, &mut |i, c| {
+        if mine(b4 + i) {
+            work.push((b4 + i, c.to_vec()));
+        }
+    });
+    for c in spaces::space_t(false).into_iter().chain(spaces::space_q()) {
+        if mine(base) {
+            work.push((base, c));
+        }
+        base += 1;
+    }
     for (_, c) in spaces::space_k() {
         if mine(base) {
             work.push((base, c));
